@@ -216,6 +216,19 @@ CHECKS = {
         "Sanitizers see executed paths only and do not detect reads of uninitialised values. Scripts are "
         "kept numerically tame (time step chosen from the reference law; fuzz stoichiometry conserves "
         "molecule numbers) because exploding tau-leap populations are a user error, not a valid script."),
+    "C08": (
+        "Hypothesis generation of driving schedules and process histories; bit-level differential against "
+        "a clean-room run in a fresh child process; stored-script replay; seed metamorphic relations",
+        "Exploration. For generated scripts and seeds the trajectory obtained in a fresh process by set-up + "
+        "run-to-completion is the reference; executions after 0-4 earlier simulations (other scripts, engine "
+        "kinds, space types; completed or abandoned; finalized or not; same or another engine object), under "
+        "random schedules of iterate / iterate_n(k) / run(0|1|5 ms) slices, repeated up to three times, must be "
+        "bit-identical in times and data. simulate(rng_seed=None) followed by simulate_script(out.script) and "
+        "by simulate(rng_seed=stored seed) must reproduce the run; Euler must not depend on the seed; "
+        "stochastic runs with >= 50 events must differ between seeds.",
+        "run(ms) slice boundaries are sampled under load, not controlled. Euler seed-independence is asserted "
+        "for the pass-through processing modes only (an explicitly requested random resampling of the "
+        "initial state is seeded by design)."),
 }
 
 NOT_BUILT = "check not built yet in this working session (planned; DESIGN.md section 4)"
